@@ -9,6 +9,8 @@ Inductive l4kind := L4Tcp | L4Udp | L4Other.   (* tcp_packet / udp_packet / neit
 
 Record packet := {
   p_ts : Z;                 (* capture time, in the units of the container's resolution (opaque to sessions and builders) *)
+  p_tsid : Z;               (* identity of the reader's float timestamp (its IEEE-754 bit pattern): two packets carry equal
+                               float timestamps iff these are equal; equal p_tsid implies equal p_ts.  Only the QUIC builder compares timestamps *)
   p_kind : l4kind;
   p_v6 : bool;
   p_src : bytes; p_dst : bytes;          (* ip.src / ip.dst *)
